@@ -568,6 +568,14 @@ M('c02-allow-iter-when-options-implemented', 'C02', 'R4', UTIL,
 # negative controls (exit 0): tuple(...) / sorted(...) of the comprehension; a generator expression re-bound by list(...) before the `if`;
 # a generator handed to a factory that takes `allowed_methods = tuple(allowed_methods)` once in its own body
 
+# R4 (k2-c02-2): the Allow list built by a package-level one-return helper handed the method map is read through the helper
+M2('c02-allow-helper-keeps-meta-methods', 'C02', 'R4', [
+    {'file': UTIL, 'old': ALLOW_COMP, 'new': "    allowed_methods = _implemented_http_methods(method_map)\n"},
+    {'file': UTIL, 'old': "def set_default_responders(method_map: MethodDict, asgi: bool = False) -> None:\n",
+     'new': "def _implemented_http_methods(method_map):\n    return [m for m in sorted(method_map)]\n\n\n"
+            "def set_default_responders(method_map: MethodDict, asgi: bool = False) -> None:\n"}])
+# negative control (exit 0): k2-c02-2 (the comprehension moved verbatim into the helper)
+
 # R12 (s10-c02-3): a prefix that already is a pattern object is stored as it is
 SINK_PREFIX = ("        if not hasattr(prefix, 'match'):\n            # Assume it is a string\n            prefix = re.compile(prefix)\n"
                "        else:\n            prefix = cast(Pattern[str], prefix)\n")
